@@ -385,6 +385,7 @@ func c12Run(c *fw.Ctx) {
 			}
 		})
 	}
+	c12EveryHost(c, keyPEM)
 	defer c12InFlight()
 	for _, sc := range scenarios {
 		sc := sc
@@ -612,5 +613,90 @@ func init() {
 		QuickBudget:    5 * time.Minute,
 		ThoroughBudget: 25 * time.Minute,
 		Run:            c12Run,
+	})
+}
+
+// c12EveryHost — one proxy serving several upstreams (two simple routes, one of them with an extra route, and a
+// rewrite route), request signing on, a shared HMAC key on the second one only. For every host: a request is
+// forwarded, and its Sso-Signature verifies under the key that THIS host publishes at /oauth2/v1/certs under
+// the kid the upstream was given; the upstream with the shared key also receives a Gap-Signature.
+func c12EveryHost(c *fw.Ctx, keyPEM string) {
+	os.Setenv("SSO_CONFIG_SVCB_SIGNING_KEY", "sha256:"+c12HMACSecret)
+	y := "- service: svca\n  default:\n    from: " + hostA + "\n    to: {{backend:a}}\n    options:\n      allowed_email_domains:\n        - '*'\n" +
+		"- service: svcb\n  default:\n    from: " + hostB + "\n    to: {{backend:a}}\n    extra_routes:\n      - from: extra-b.sso.test\n        to: {{backend:a}}\n    options:\n      allowed_email_domains:\n        - '*'\n" +
+		"- service: svcr\n  default:\n    from: '^tenant-(a|b)\\.sso\\.test$'\n    to: {{backend:a}}\n    type: rewrite\n    options:\n      allowed_email_domains:\n        - '*'\n"
+	e, err := harness.NewProxyEnv(harness.ProxyOpts{YAML: y, Backends: []string{"a"}, SignerKeyPEM: keyPEM})
+	os.Unsetenv("SSO_CONFIG_SVCB_SIGNING_KEY")
+	if err != nil {
+		panic(explore.HarnessError{Msg: err.Error()})
+	}
+	defer e.Close()
+	hostsHere := []string{hostA, hostB, "extra-b.sso.test", "tenant-a.sso.test", "tenant-b.sso.test"}
+	future := harness.At(time.Hour)
+	drive(c, "every-upstream-host", -1, func(x *explore.Exec, owned bool) {
+		host := hostsHere[x.Choose("host", len(hostsHere))]
+		method := []string{"GET", "POST"}[x.Choose("method", 2)]
+		first := x.Choose("asked-first", 2) // the certs are fetched before | after the request is forwarded
+		sess := &sessions.SessionState{ProviderSlug: slugA, ProviderType: "sso", AccessToken: "session-access-token", RefreshToken: "rt",
+			LifetimeDeadline: future, RefreshDeadline: future, ValidDeadline: future, Email: "carol@other.test", User: "carol", Groups: []string{"eng"}, AuthorizedUpstream: host}
+		pems := map[string]string{}
+		fetch := func() string {
+			r := e.Do(harness.NewRequest("GET", "/oauth2/v1/certs", host, nil, nil))
+			json.Unmarshal([]byte(r.Body), &pems)
+			return truncate(r.Body, 80)
+		}
+		certsBody := ""
+		if first == 0 {
+			certsBody = fetch()
+		}
+		raw := method + " /private/page?x=1 HTTP/1.1\r\nHost: " + host + "\r\nCookie: " + harness.CookieName + "=" + e.Seal(sess) + "\r\nContent-Type: text/plain\r\nConnection: close\r\n"
+		if method == "POST" {
+			raw += "Content-Length: 9\r\n\r\npayload=1"
+		} else {
+			raw += "\r\n"
+		}
+		resp, err := e.DoRaw(raw)
+		if err != nil {
+			panic(explore.HarnessError{Msg: "raw request failed: " + err.Error()})
+		}
+		if first == 1 {
+			certsBody = fetch()
+		}
+		if !owned {
+			return
+		}
+		desc := map[string]interface{}{"host": host, "method": method, "status": resp.Status, "certs_answer_on_this_host": certsBody}
+		viol := func(key, what string) {
+			c.Res.Violate(fw.Violation{Property: "C12", Key: "C12/every-upstream-host/" + key, What: what, Scenario: "every-upstream-host", Choices: x.Choices(), Detail: desc})
+		}
+		c.Res.Outcome(fmt.Sprintf("every-host|%s|%s|%d|%d|%d", host, method, first, resp.Status, len(resp.Hits)))
+		if len(resp.Hits) != 1 {
+			viol("not-forwarded", fmt.Sprintf("the request was answered %d and reached the upstream %d times", resp.Status, len(resp.Hits)))
+			return
+		}
+		h := resp.Hits[0]
+		sig, kid := h.Header.Get("Sso-Signature"), h.Header.Get("Kid")
+		pm, ok := pems[kid]
+		switch {
+		case sig == "" || kid == "":
+			viol("sso-signature-missing", "signing is enabled but the upstream received no Sso-Signature / kid header")
+		case !ok:
+			viol("kid-not-published-on-this-host", fmt.Sprintf("the upstream of %s was given kid %q, which /oauth2/v1/certs on %s does not publish (it answers %q)", host, kid, host, certsBody))
+		default:
+			if err := verifySSO(pm, sig, refCanon(h)); err != nil {
+				viol("sso-signature-mismatch", fmt.Sprintf("Sso-Signature does not verify under the key this host publishes (%v)", err))
+			} else {
+				c.Res.Count("positive_sso_signatures_verified_per_host", 1)
+			}
+		}
+		wantGap := host == hostB || host == "extra-b.sso.test"
+		if gap := h.Header.Get("Gap-Signature"); wantGap && gap == "" {
+			viol("gap-signature-missing", "the upstream with a shared key received no Gap-Signature")
+		} else if wantGap {
+			auth := hmacauth.NewHmacAuth(crypto.SHA256, []byte(c12HMACSecret), "Gap-Signature", c12Covered)
+			if res, hs, cs := auth.AuthenticateRequest(hitRequest(h)); res != hmacauth.ResultMatch {
+				viol("gap-signature-mismatch", fmt.Sprintf("Gap-Signature does not authenticate at the upstream (result %d, header %q, computed %q)", res, hs, cs))
+			}
+		}
 	})
 }
